@@ -116,6 +116,11 @@ type State struct {
 	Trace      []string
 	Known      map[string]string
 	ParamHeaps bool // heaps are parameters of a spec function being defined
+	DirtyAll   bool // code with unknown effects ran: heaps first touched from now on are arbitrary
+	// ... except that, when every such event came with a frame (a callee contract with a modifies
+	// clause), memory that existed before the first of them and is not named by any is unchanged
+	DirtyNoFrame bool
+	DirtyFrames  []*dirtyFrame
 	// entry snapshot of the unit (for old() and frame checks)
 	Entry *snapshot
 }
@@ -132,6 +137,9 @@ func (s *State) clone() *State {
 		Entry:   s.Entry,
 		Depth:   s.Depth,
 		Trace:   append([]string(nil), s.Trace...),
+		DirtyAll: s.DirtyAll,
+		DirtyNoFrame: s.DirtyNoFrame,
+		DirtyFrames: append([]*dirtyFrame(nil), s.DirtyFrames...),
 	}
 	for k, v := range s.Heaps {
 		n.Heaps[k] = v
@@ -323,7 +331,65 @@ func (u *Unit) heap(s *State, kind string, elem types.Type) (string, *Term) {
 			s.Entry.Heaps[key] = h
 		}
 	}
+	if s.DirtyAll {
+		// something with unknown effects ran before this heap was first looked at
+		h0 := h
+		h = u.havocHeap(s, key, h0)
+		u.assumeDirtyFrame(s, key, h, h0)
+		s.Heaps[key] = h
+	}
 	return key, h
+}
+
+type dirtyFrame struct {
+	pre  *Term
+	locs []*specLoc
+}
+
+func (u *Unit) assumeDirtyFrame(s *State, key string, h, h0 *Term) {
+	if s.DirtyNoFrame || len(s.DirtyFrames) == 0 {
+		return
+	}
+	r := Leaf("r!m", "Int")
+	cond := Lt(r, s.DirtyFrames[0].pre)
+	for _, df := range s.DirtyFrames {
+		for _, l := range df.locs {
+			if l.key == key {
+				cond = And(cond, Not(Eq(r, l.ref)))
+			}
+		}
+	}
+	s.assume(Forall([]*Term{r}, Implies(cond, Eq(Select(h, r), Select(h0, r))), Select(h, r)))
+}
+
+// ensureHeap materializes the heap of an effect-set key that this path has not touched yet, so
+// that havocing it is not lost (a heap first read AFTER a call or loop that may write it must not
+// be the entry heap).
+func (u *Unit) ensureHeap(s *State, key string) bool {
+	if _, ok := s.Heaps[key]; ok {
+		return true
+	}
+	i := strings.Index(key, ":")
+	if i < 0 {
+		return false
+	}
+	t := typeOfKey(key[i+1:])
+	if t == nil {
+		return false
+	}
+	switch key[:i] {
+	case "S", "P":
+		u.heap(s, key[:i], t)
+	case "M", "ML":
+		if _, ok := t.Underlying().(*types.Map); !ok {
+			return false
+		}
+		u.mapHeaps(s, t)
+	default:
+		return false
+	}
+	_, ok := s.Heaps[key]
+	return ok
 }
 
 // initial heap term for a key (used by old())
